@@ -192,9 +192,86 @@ end Gaftools.Gen
 """ % (args[0], args[1], args[2], args[3], body)
 
 
+def _dict_literal(node):
+    """{(k1, k2): (v1, v2), ...} with string/int constants -> list of ((k1,k2),(v1,v2))"""
+    if not isinstance(node, ast.Dict):
+        raise Untranslatable("not a dict literal")
+    out = []
+    for k, v in zip(node.keys, node.values):
+        if not (isinstance(k, ast.Tuple) and isinstance(v, ast.Tuple) and len(k.elts) == 2 and len(v.elts) == 2):
+            raise Untranslatable("dict entry shape")
+        ks = [e.value for e in k.elts if isinstance(e, ast.Constant)]
+        vs = [e.value for e in v.elts if isinstance(e, ast.Constant)]
+        if len(ks) != 2 or len(vs) != 2:
+            raise Untranslatable("dict entry constants")
+        out.append((tuple(ks), tuple(vs)))
+    return out
+
+
+def gen_tables():
+    """gfa.E_DIR and the `cases` table of GFA.path_exists as total functions on Booleans ('+'/'>' = true; side 1/'end' = true)"""
+    path, src = src_of("gaftools/gfa.py")
+    mod = ast.parse(src)
+    edir = None
+    for n in mod.body:
+        if isinstance(n, ast.Assign) and len(n.targets) == 1 and isinstance(n.targets[0], ast.Name) and n.targets[0].id == "E_DIR":
+            edir = _dict_literal(n.value)
+    if edir is None:
+        raise Untranslatable("E_DIR not found")
+    fn = find_func(mod, "path_exists", cls="GFA")
+    cases = None
+    for n in ast.walk(fn):
+        if isinstance(n, ast.Assign) and len(n.targets) == 1 and isinstance(n.targets[0], ast.Name) and n.targets[0].id == "cases":
+            cases = _dict_literal(n.value)
+    if cases is None:
+        raise Untranslatable("cases table not found")
+    b = {"+": "true", "-": "false", ">": "true", "<": "false", 1: "true", 0: "false", "end": "true", "start": "false"}
+
+    def table(name, entries, doc):
+        keys = {k for k, _ in entries}
+        if len(keys) != 4 or len(entries) != 4:
+            raise Untranslatable("%s is not a total 2x2 table" % name)
+        arms = "\n".join("  | %s, %s => (%s, %s)" % (b[k[0]], b[k[1]], b[v[0]], b[v[1]]) for k, v in entries)
+        return "/-- %s -/\ndef %s (a b : Bool) : Bool × Bool :=\n  match a, b with\n%s\n" % (doc, name, arms)
+    try:
+        body = table("eDir", edir, "gfa.E_DIR") + "\n" + table("pathCase", cases, "the `cases` table of GFA.path_exists")
+    except KeyError as e:
+        raise Untranslatable("unexpected table constant %s" % e)
+    return """/-! generated by harness/translate.py from gaftools/gfa.py : E_DIR and path_exists.cases — do not edit -/
+namespace Gaftools.Gen
+%s
+end Gaftools.Gen
+""" % body
+
+
+def gen_is_stable():
+    path, src = src_of("gaftools/gaf.py")
+    fn = find_func(ast.parse(src), "detect_path_format", cls="Alignment")
+
+    class T(Tr):
+        def expr(self, e):
+            if isinstance(e, ast.Compare) and len(e.ops) == 1 and isinstance(e.ops[0], ast.In) and isinstance(e.left, ast.Constant) \
+                    and isinstance(e.left.value, str) and len(e.left.value) == 1 and isinstance(e.comparators[0], ast.Attribute) \
+                    and e.comparators[0].attr == "path":
+                return "(path.contains '%s' = true)" % e.left.value
+            if isinstance(e, ast.Constant) and isinstance(e.value, bool):
+                return "true" if e.value else "false"
+            return Tr.expr(self, e)
+
+    body = T(lambda o, a: (_ for _ in ()).throw(Untranslatable("attr")), ret=lambda x: x, none_fallthrough="true").block(fn.body, 2)
+    return """/-! generated by harness/translate.py from gaftools/gaf.py : Alignment.detect_path_format — do not edit -/
+namespace Gaftools.Gen
+def isStable (path : List Char) : Bool :=
+%s
+end Gaftools.Gen
+""" % body
+
+
 GENERATORS = {
     "CmpGaf": gen_cmp_gaf,
     "MergeNodes": gen_merge_nodes,
+    "Tables": gen_tables,
+    "IsStable": gen_is_stable,
 }
 
 
@@ -223,6 +300,18 @@ def regenerate(only=None):
 
 
 FALLBACK = {
+    "Tables": """/-! FALLBACK (source construct outside the translator's subset): the tables as modelled by hand -/
+namespace Gaftools.Gen
+def eDir (a b : Bool) : Bool × Bool := (a, !b)
+def pathCase (a b : Bool) : Bool × Bool := (a, !b)
+end Gaftools.Gen
+""",
+    "IsStable": """/-! FALLBACK (source construct outside the translator's subset) -/
+namespace Gaftools.Gen
+def isStable (path : List Char) : Bool :=
+  if path.contains ':' then true else if path.contains '>' || path.contains '<' then false else true
+end Gaftools.Gen
+""",
     "MergeNodes": """import Gaftools.Model.Conv
 /-! FALLBACK (source construct outside the translator's subset): hand-written twin re-exported -/
 namespace Gaftools.Gen
